@@ -557,6 +557,19 @@ impl BytecodeBuilder {
     pub fn reserve_registers(&mut self, count: u8) -> Result<Register, JsError> {
         self.registers.reserve_range(count)
     }
+
+    /// Reserve `count` consecutive registers for a list of `count` source items
+    /// (elements, arguments, parameters, template parts).  A list that does not fit
+    /// the 8-bit register file is refused here; narrowing `count` with `as u8`
+    /// would wrap and silently reserve too few registers.
+    pub fn reserve_registers_for(&mut self, count: usize) -> Result<Register, JsError> {
+        match u8::try_from(count) {
+            Ok(count) => self.registers.reserve_range(count),
+            Err(_) => Err(JsError::internal_error(
+                "Too many registers needed (max 255)",
+            )),
+        }
+    }
 }
 
 impl Default for BytecodeBuilder {
